@@ -100,14 +100,12 @@ class Unit:
         if value != value:
             raise ValueError("Value is not a number.")
 
-        if unit == 'U':
-            return value, unit
-        for base_unit in ['mol', 'g', 'L', 'M']:
+        for base_unit in ['mol', 'g', 'L', 'M', 'U']:
             if unit.endswith(base_unit):
                 prefix = unit[:-len(base_unit)]
                 value = value * Unit.convert_prefix_to_multiplier(prefix)
                 return value, base_unit
-        raise ValueError("Invalid unit {base_unit}.")
+        raise ValueError(f"Invalid unit {unit}.")
 
     @staticmethod
     def parse_concentration(concentration) -> Tuple[float, str, str]:
